@@ -60,6 +60,7 @@ type cntCheck struct {
 	reader map[ssa.Value]bool // the reader, views of it (type assertions), and objects it hands out about itself
 	av     map[ssa.Value]bool
 	avCell map[*ssa.Alloc]bool
+	done   bool
 }
 
 func (c *cntCheck) readerDerived(v ssa.Value, d int) bool {
@@ -178,89 +179,95 @@ func (a *analysis) tokParam() map[*ssa.Parameter]bool {
 	return a.tokParams
 }
 
+// isAV: lookup in the least fix-point computed by computeAV (phis and local variables may be cyclic).
 func (c *cntCheck) isAV(v ssa.Value, d int) bool {
-	if v == nil || d > 8 {
+	if !c.done {
+		c.computeAV()
+	}
+	return c.av[v]
+}
+
+func (c *cntCheck) computeAV() {
+	c.done = true
+	var vals []ssa.Value
+	ssau.AllInstrs(c.fi.fn, func(in ssa.Instruction) {
+		if v, ok := in.(ssa.Value); ok {
+			vals = append(vals, v)
+		}
+	})
+	for changed := true; changed; {
+		changed = false
+		for _, v := range vals {
+			if !c.av[v] && c.avLocal(v) {
+				c.av[v] = true
+				changed = true
+			}
+		}
+	}
+}
+
+// avLocal: one step of the AV rules, operands looked up in the current approximation.
+func (c *cntCheck) avLocal(v ssa.Value) bool {
+	recv := func(call *ssa.Call) bool {
+		cc := call.Common()
+		if cc.IsInvoke() {
+			return c.readerDerived(cc.Value, 0)
+		}
+		if f := cc.StaticCallee(); f != nil && f.Signature.Recv() != nil && len(cc.Args) > 0 {
+			return c.readerDerived(cc.Args[0], 0)
+		}
 		return false
 	}
-	if r, ok := c.av[v]; ok {
-		return r
-	}
-	c.av[v] = false
-	res := false
 	switch x := v.(type) {
 	case *ssa.Call:
 		switch ssau.Builtin(x) {
 		case "len":
-			res = len(x.Call.Args) == 1 && c.a.openTokens(x.Call.Args[0], 0)
+			return len(x.Call.Args) == 1 && c.a.openTokens(x.Call.Args[0], 0)
 		case "copy":
-			res = len(x.Call.Args) == 2 && c.a.openTokens(x.Call.Args[1], 0)
+			return len(x.Call.Args) == 2 && c.a.openTokens(x.Call.Args[1], 0)
 		case "min", "max":
 			for _, arg := range x.Call.Args {
-				if c.isAV(arg, d+1) {
-					res = true
+				if c.av[arg] {
+					return true
 				}
 			}
 		case "":
-			if isIntType(x.Type()) && c.fi.siteOf[x] == nil {
-				cc := x.Common()
-				if cc.IsInvoke() {
-					res = c.readerDerived(cc.Value, 0)
-				} else if f := cc.StaticCallee(); f != nil && f.Signature.Recv() != nil && len(cc.Args) > 0 {
-					res = c.readerDerived(cc.Args[0], 0)
-				}
-			}
+			return isIntType(x.Type()) && c.fi.siteOf[x] == nil && recv(x)
 		}
 	case *ssa.Extract:
 		if call, ok := x.Tuple.(*ssa.Call); ok && isIntType(x.Type()) && ssau.Builtin(call) == "" && c.fi.siteOf[call] == nil {
-			cc := call.Common()
-			if cc.IsInvoke() {
-				res = c.readerDerived(cc.Value, 0)
-			} else if f := cc.StaticCallee(); f != nil && f.Signature.Recv() != nil && len(cc.Args) > 0 {
-				res = c.readerDerived(cc.Args[0], 0)
-			}
+			return recv(call)
 		}
 	case *ssa.Convert:
-		res = c.isAV(x.X, d+1)
+		return c.av[x.X]
 	case *ssa.ChangeType:
-		res = c.isAV(x.X, d+1)
+		return c.av[x.X]
 	case *ssa.BinOp:
 		switch x.Op {
 		case token.ADD, token.SUB, token.MUL, token.QUO, token.REM, token.SHL, token.SHR, token.AND, token.OR:
-			res = c.isAV(x.X, d+1) || c.isAV(x.Y, d+1)
+			return c.av[x.X] || c.av[x.Y]
 		}
 	case *ssa.UnOp:
 		switch x.Op {
 		case token.SUB:
-			res = c.isAV(x.X, d+1)
+			return c.av[x.X]
 		case token.MUL:
 			if al, ok := x.X.(*ssa.Alloc); ok {
-				res = c.cellAV(al, d+1)
+				for _, r := range ssau.Refs(al) {
+					if st, ok := r.(*ssa.Store); ok && st.Addr == al && c.av[st.Val] {
+						return true
+					}
+				}
 			}
 		}
 	case *ssa.Phi:
 		for _, e := range x.Edges {
-			if c.isAV(e, d+1) {
-				res = true
+			if c.av[e] {
+				return true
 			}
 		}
 	}
-	c.av[v] = res
-	return res
-}
-
-func (c *cntCheck) cellAV(al *ssa.Alloc, d int) bool {
-	if r, ok := c.avCell[al]; ok {
-		return r
-	}
-	c.avCell[al] = false
-	res := false
-	for _, r := range ssau.Refs(al) {
-		if st, ok := r.(*ssa.Store); ok && st.Addr == al && c.isAV(st.Val, d+1) {
-			res = true
-		}
-	}
-	c.avCell[al] = res
-	return res
+	return false
 }
 
 func nonConst(v ssa.Value) bool {
